@@ -46,6 +46,14 @@ pub struct WorldSpec {
     pub tf1: Option<(u16, u64)>,
     #[serde(default)]
     pub tf2: Option<(u16, u64)>,
+    /// mint_kind == 3: a fee change scheduled through the real SetTransferFee right after the mint is created (takes effect two epochs later)
+    #[serde(default)]
+    pub tf1_next: Option<(u16, u64)>,
+    #[serde(default)]
+    pub tf2_next: Option<(u16, u64)>,
+    /// epochs that pass between scheduling the change and the first pool instruction (0, 1: still pending; >= 2: in force)
+    #[serde(default)]
+    pub epoch_advance: u8,
     /// packaging: create this many (empty) tick arrays on each side of the start price before any position exists
     #[serde(default)]
     pub precreate_arrays: u8,
@@ -117,6 +125,10 @@ pub enum Op {
     FundRewardVault { index: u8, amount: u64 },
     /// emissions chosen so that one day of emissions is the vault balance (+delta units of rate around the largest accepted rate)
     SetEmissionsNearVault { index: u8, delta: i8 },
+    /// fee-mint pools: schedule a new transfer fee on the pool's first / second mint (real Token-2022 SetTransferFee)
+    SetTransferFee { second: bool, bp: u16, max: u64 },
+    /// fee-mint pools: let epochs pass (scheduled transfer fees come into force)
+    AdvanceEpoch(u8),
 }
 
 #[derive(Clone, Debug, Serialize, Deserialize, Hash, PartialEq, Eq)]
@@ -202,7 +214,19 @@ impl Hist {
         let ix = w.ix_init_fee_tier(cfg, spec.tick_spacing, spec.fee_rate.min(60000));
         w.must("initialize_fee_tier", &ix);
         let (m1, m2) = if spec.mint_kind == 3 {
-            (w.create_t22_mint(spec.tf1), w.create_t22_mint(spec.tf2))
+            let (mut m1, mut m2) = (w.create_t22_mint(spec.tf1), w.create_t22_mint(spec.tf2));
+            for (m, next) in [(&mut m1, spec.tf1_next), (&mut m2, spec.tf2_next)] {
+                if let (Some(_), Some((bp, max))) = (m.transfer_fee, next) {
+                    w.set_transfer_fee(&m.key, bp.min(10_000), max);
+                }
+            }
+            w.bank.clock.epoch += spec.epoch_advance as u64;
+            for m in [&mut m1, &mut m2] {
+                if m.transfer_fee.is_some() {
+                    m.transfer_fee = w.fee_in_force(&m.key);
+                }
+            }
+            (m1, m2)
         } else {
             (if spec.mint_kind == 1 { w.create_t22_mint(None) } else { w.create_spl_mint() }, if spec.mint_kind >= 1 { w.create_t22_mint(None) } else { w.create_spl_mint() })
         };
@@ -642,6 +666,23 @@ impl Hist {
                 res.did = Did::Ok;
                 return res;
             }
+            Op::SetTransferFee { second, bp, max } => {
+                let pl = &self.w.pools[self.pool];
+                let m = if *second { pl.mint_b.clone() } else { pl.mint_a.clone() };
+                if m.transfer_fee.is_some() && self.w.set_transfer_fee(&m.key, (*bp).min(10_000), *max) {
+                    self.w.refresh_transfer_fees();
+                    res.did = Did::Ok;
+                }
+                return res;
+            }
+            Op::AdvanceEpoch(n) => {
+                let pl = &self.w.pools[self.pool];
+                if pl.mint_a.transfer_fee.is_some() || pl.mint_b.transfer_fee.is_some() {
+                    self.w.advance_epoch(*n as u64);
+                    res.did = Did::Ok;
+                }
+                return res;
+            }
             Op::CollectReward { pos, index, v2 } => {
                 let Some(p) = pick_pos(*pos) else { return res };
                 let nrew = self.w.pools[self.pool].rewards.len();
@@ -778,6 +819,9 @@ pub fn spec_strategy(with_rewards: bool, wrap_bias: bool) -> BoxedStrategy<World
             mint_kind: 0,
             tf1: None,
             tf2: None,
+            tf1_next: None,
+            tf2_next: None,
+            epoch_advance: 0,
             precreate_arrays: 0,
             adaptive: None,
             trade_enable_delay: None,
@@ -886,6 +930,9 @@ pub fn op_strategy(with_rewards: bool) -> BoxedStrategy<Op> {
         1 => gen::fee_rate(60001).prop_map(|r| Op::SetFeeRate(r as u16)),
         1 => (0u16..=2501).prop_map(Op::SetProtocolFeeRate),
         2 => any::<u16>().prop_map(|pos| Op::Close { pos }),
+        // vacuous unless the pool's mints carry transfer fees
+        1 => (any::<bool>(), prop::sample::select(vec![0u16, 1, 100, 1000, 5000, 10000]), prop_oneof![1 => Just(0u64), 2 => crate::gen::bits_u64(40), 1 => Just(u64::MAX)]).prop_map(|(second, bp, max)| Op::SetTransferFee { second, bp, max }),
+        1 => (0u8..=2).prop_map(Op::AdvanceEpoch),
     ];
     if with_rewards {
         prop_oneof![
@@ -946,6 +993,22 @@ pub fn tf_strategy() -> BoxedStrategy<Option<(u16, u64)>> {
     .boxed()
 }
 
+
+/// turn a history into one over Token-2022 transfer-fee mints: current schedules, optionally a scheduled change that is
+/// still pending (epoch_advance 0 / 1) or already in force (>= 2) when the pool is used
+pub fn with_fee_mints(h: BoxedStrategy<HistoryCase>) -> BoxedStrategy<HistoryCase> {
+    (h, tf_strategy(), tf_strategy(), prop_oneof![2 => Just(None), 3 => tf_strategy()], prop_oneof![2 => Just(None), 3 => tf_strategy()], prop_oneof![3 => Just(0u8), 2 => Just(1u8), 2 => Just(2u8), 1 => Just(3u8)])
+        .prop_map(|(mut h, tf1, tf2, n1, n2, adv)| {
+            h.spec.mint_kind = 3;
+            h.spec.tf1 = tf1;
+            h.spec.tf2 = tf2;
+            h.spec.tf1_next = n1;
+            h.spec.tf2_next = n2;
+            h.spec.epoch_advance = adv;
+            h
+        })
+        .boxed()
+}
 
 /// valid adaptive-fee constants for a tick spacing (all fields varied within the published rules)
 pub fn adaptive_constants(ts: u16) -> BoxedStrategy<crate::world2::AfConstants> {
